@@ -36,6 +36,7 @@ struct target
     virtual void move_construct() = 0;
     virtual void move_assign(bool used) = 0;
     virtual void destroy() = 0;
+    virtual void report_reserved() = 0;
 };
 
 template <class A, class Make>
@@ -55,6 +56,13 @@ struct target_impl : target
     void da(void* p, std::size_t c, std::size_t size, std::size_t al) override { traits::deallocate_array(*a, p, c, size, al); }
     bool tdn(void* p, std::size_t size, std::size_t al) override { return ctraits::try_deallocate_node(*a, p, size, al); }
     bool tda(void* p, std::size_t c, std::size_t size, std::size_t al) override { return ctraits::try_deallocate_array(*a, p, c, size, al); }
+    template <class T> static auto resv_impl(T& t, int) -> decltype(t.pool_capacity_left(1), void())
+    {   // the free-list array a collection keeps at the start of its first block
+        char b[96]; std::snprintf(b, sizeof b, " R %zu %zu", up().off(t.pools_.array_), t.pools_.no_elements_ * sizeof(*t.pools_.array_));
+        up().oplog += b;
+    }
+    template <class T> static void resv_impl(T&, long) {}
+    void report_reserved() override { resv_impl(*a, 0); }
     template <class T> static auto caps_impl(T& t, std::size_t size, int) -> decltype(t.pool_capacity_left(size), std::string())
     {
         char b[128];
@@ -123,6 +131,7 @@ int main()
     catch (...) { ex = classify_current(); }
     if (ex) { std::printf("%s = throw %s |%s |\n", line.c_str(), ex, U.take().c_str()); return 0; }
     {
+        t->report_reserved();
         std::string ev = U.take();
         std::printf("%s = ok |%s | %s dbl=%d\n", line.c_str(), ev.c_str(), t->caps(1).c_str(), FOONATHAN_MEMORY_DEBUG_DOUBLE_DEALLOC_CHECK);
     }
